@@ -37,6 +37,12 @@ claimed={
          "mint/import with real key derivation and the resume-by-claim flow are not yet covered"),
  "C18": ("Real validateFSAuthPath/fsAddrLeaf/verifyFSPathEndpoint over arbitrary paths (<= 24/30 bytes) and connection addresses against independently written leaf shapes: accepted => directly under /tmp, one safe component, recognised shape, address-qualified names name the connected endpoint.", "5.C18",
          "IPv4 endpoints (IPv6 texts only as an uninterpreted function); client/server filesystem effects not yet covered"),
+ "C11": ("validateTokenTiming over an arbitrary clock, claim types and maximum age; the server and client token flows with the real third / second step and the real deferred-failure logic, earlier steps and the MAC / key derivations replaced by stubs of arbitrary outcome: success only if no step failed, the peer reported OK, echoed identity and nonce, and sent exactly the expected MAC with nothing trailing; identity recorded is the one validation established.", "5.C11",
+         "token parsing, signature recomputation and HMAC/HKDF are stubs (seams); standalone VerifyIDToken not yet covered"),
+ "C19": ("Real readWithContext / writeWithContext with a harness context implementing the context package's AfterFunc hook and a connection that completes, fails or stalls until closed, under every cancellation timing: cancelled => returns the context's error with the connection closed (a stalled call is unblocked); never-cancelled or non-cancellable context => exactly the I/O's result.", "5.C19",
+         "sequential model of a blocked call (the harness fires the cancellation inside Read/Write); latency, kernel unblock semantics and TLS are outside; context threading through handshakes not yet covered"),
+ "C20": ("Real acceptReversed over up to three arriving connections with arbitrary hellos (command, connect id present/absent/other/unreadable) and a cancelled context; real proxyRequestOnStream against an arbitrary broker reply and hello.", "5.C20",
+         "message layer replaced by typed stubs; the goroutine race in dialStandard and the Happy-Eyeballs timers of Dial are outside (no thread model)"),
 }
 checks=[]
 for i in ids:
@@ -57,6 +63,6 @@ m={"version":1,
 "engines":[{"name":"gosym","path":"engine","serves_properties":[c["property_id"] for c in checks],"kind_free_text":"own Go SSA symbolic executor -> SMT-LIB2 (z3/cvc5), bounded; harnesses in /verif/harness overlaid into /repo packages"}],
 "checks":checks,
 "notes":"see DESIGN.md; known_findings.json lists genuine defects (fixed by 'fix:' commits in /repo, or known)",
-"not_applicable":[{"property_id":i,"reason":"check not built yet (work in progress; see DESIGN.md section 5)"} for i in ids if i not in claimed]}
+"not_applicable":[{"property_id":i,"reason":"no sound encoding built: the claim is about goroutine interleavings and the memory model, which this engine (sequential symbolic execution of go/ssa) does not model; see DESIGN.md section 6"} for i in ids if i not in claimed]}
 json.dump(m,open('/verif/MANIFEST.json','w'),indent=1)
 print(len(checks),"claimed")
